@@ -718,6 +718,22 @@ def rename_aliases(d):
             mod = old.rsplit("::", 1)[0].split("::")[0].lstrip("<")
             if any(p.lstrip("<").startswith(mod) for p in all_paths):
                 out[cands[0]] = old
+    # an inherent associated function `X::m` of the pinned tree that is now the provided method
+    # `m` of a crate-local trait implemented for X (`Trait::m::<X>`: the driver's instance of it
+    # for Self = X): the same function under the name the rules know
+    local_mods = {p.split("::")[0] for p in all_paths if not p.startswith("<")}
+    for b in d["bodies"]:
+        inst = b.get("instance_of")
+        pth = b["path"]
+        if not inst or not pth.startswith(inst + "::<") or not pth.endswith(">") or "::promoted" in pth:
+            continue
+        targ = pth[len(inst) + 3:-1]
+        if "," in targ or "<" in targ:
+            continue
+        m = inst.rsplit("::", 1)[-1]
+        old = "%s::%s" % (targ, m)
+        if old in fn_anchors and old not in all_paths and inst.split("::")[0] in local_mods and inst not in fn_anchors and pth not in out:
+            out[pth] = old
     return out
 
 
